@@ -168,6 +168,7 @@ func c09Run(r *core.Run, ci int64, rng *rand.Rand, set []string, hist []int, ini
 	}
 	step := 0
 	wantErr := false
+	var cbErr error
 	ended := false
 	// model: what the callback does and what must have been sent
 	onInput := func(ctx context.Context) error {
@@ -258,7 +259,18 @@ func c09Run(r *core.Run, ci int64, rng *rand.Rand, set []string, hist []int, ini
 			return fmt.Errorf("no more input: %w", io.EOF)
 		default:
 			wantErr = true
-			return errUser
+			// whatever the error looks like (also io.ErrUnexpectedEOF from a source cut mid-record, or
+			// an unrelated error whose text is "EOF"), it is not the end of input
+			cbErr = errUser
+			switch step % 3 {
+			case 1:
+				reset()
+				appendRows(2)
+				cbErr = fmt.Errorf("read record: %w", io.ErrUnexpectedEOF)
+			case 2:
+				cbErr = errors.New("EOF")
+			}
+			return cbErr
 		}
 	}
 	// the server's revision: mostly current, sometimes below the thresholds that change the block
@@ -335,7 +347,7 @@ func c09Run(r *core.Run, ci int64, rng *rand.Rand, set []string, hist []int, ini
 		}
 	}
 	if wantErr {
-		if derr == nil || !errors.Is(derr, errUser) {
+		if derr == nil || !errors.Is(derr, cbErr) {
 			fail("callback-error-lost", fmt.Sprintf("the input callback failed but Do returned %v", derr))
 		}
 		if terminators > 0 {
